@@ -42,7 +42,8 @@ def plan(tier):
     return {"shards": 16, "timeout": 1500 if tier == "quick" else 5 * 3600,
             "required_monitors": ["inputs-unchanged", "same-result-twice", "precedence-map", "precedence-hist2d",
                                   "precedence-hist1d"],
-            "required_tags": ["shared-resolution-dict", "shared-layer", "raising-call", "thick-map", "scatter", "plot1d"]}
+            "required_tags": ["shared-resolution-dict", "shared-layer", "raising-call", "thick-map", "scatter", "plot1d",
+                              "layer-component-or-colour"]}
 
 
 def cases(ctx):
@@ -281,7 +282,16 @@ def _sequence(osy, rng, res, i):
     sinks = osy.Vector(sp[:, 0].copy(), sp[:, 1].copy(), sp[:, 2].copy(), unit="au", name="position")
     lay_s = Layer(sinks, mode="scatter", c=osy.Array(values=np.arange(6.0), unit="M_sun", name="msink"),
                   s=0.02 * osy.units("au"), cmap="magma")
-    objs = {"dg": dg, "res": shared_res, "origin": origin, "lay_t": lay_t, "lay_v": lay_v, "xa": xa, "ya": ya, "wa": wa,
+    edges = np.linspace(1.0, 10.0, 8)
+    xb = osy.Array(values=rng.uniform(1, 10, n), unit="mm", name="xb")
+    yb = osy.Array(values=rng.uniform(1, 10, n), unit="g", name="yb")
+    xc = osy.Array(values=rng.uniform(1, 10, n), unit="cm", name="xc")    # (scatter wants x and y in the very same unit)
+    size_arr = osy.Array(values=rng.uniform(1, 30, n), unit="mm", name="sz")
+    vlim = 2.0 * osy.units("K")
+    lay_vx = dg.layer("velocity").x
+    lay_vc = dg.layer("velocity", mode="vec", color=dg["temp"])
+    objs = {"edges": edges, "xc": xc, "xb": xb, "yb": yb, "size_arr": size_arr, "vlim": vlim, "lay_vx": lay_vx, "lay_vc": lay_vc,
+            "dg": dg, "res": shared_res, "origin": origin, "lay_t": lay_t, "lay_v": lay_v, "xa": xa, "ya": ya, "wa": wa,
             "hl": hl, "lim": lim, "lay_s": lay_s, "sinks": sinks}
     calls = {
         "map-thin": lambda: osy.map(lay_t, direction="z", dx=0.7 * osy.units("au"), origin=origin, resolution=shared_res, plot=False),
@@ -299,6 +309,22 @@ def _sequence(osy, rng, res, i):
         "scatter": lambda: osy.scatter(xa, ya, color=wa, size=3.0, norm="log"),
         "plot": lambda: osy.plot(xa, ya, color="k"),
         "plot-dict": lambda: osy.plot({"x": xa, "y": ya}, marker="o"),
+        # further argument shapes of the same functions
+        "hist2d-loglog": lambda: osy.histogram2d(xa, ya, hl, resolution=8, loglog=True, plot=False),
+        "hist1d-edges": lambda: osy.histogram1d(Layer(xa, bins=edges), Layer(xb, weights=wa), bins=5, logx=True),
+        "hist1d-loglog": lambda: osy.histogram1d(xa, bins=6, loglog=True),
+        "plot-multi": lambda: osy.plot(xa, ya, yb, loglog=True, legend=True),
+        "plot-dicts": lambda: osy.plot({"x": xa, "y": ya}, {"x": xb, "y": yb}, ls="--"),
+        "plot-unit-mismatch": lambda: osy.plot(xa, ya, wa),
+        "plot-y-only": lambda: osy.plot(ya),
+        "scatter-sized": lambda: osy.scatter(xa, xc, color="r", size=size_arr, loglog=True),
+        "scatter-size-unit-mismatch": lambda: osy.scatter(xa, ya, size=size_arr),
+        "scatter-quantity-size": lambda: osy.scatter(xa, xc, color=wa, size=0.3 * osy.units("mm"), vmin=2.0, norm="symlog"),
+        "map-component": lambda: osy.map(lay_vx, lay_t, direction="z", dx=0.7 * osy.units("au"), origin=origin, resolution=shared_res,
+                                         plot=False),
+        "map-vec-colour": lambda: osy.map(lay_vc, direction="z", dx=0.9 * osy.units("au"), origin=origin, resolution=16, plot=False),
+        "map-symlog-plot": lambda: osy.map(dg.layer("temp", norm="symlog", cbar=False), direction="z", dx=0.7 * osy.units("au"),
+                                           origin=origin, resolution=shared_res, plot=True),
     }
     names = list(calls)
     k = int(rng.integers(2, 5))
@@ -321,6 +347,8 @@ def _sequence(osy, rng, res, i):
             res.tag("scatter")
         if name.startswith("plot"):
             res.tag("plot1d")
+        if name in ("map-component", "map-vec-colour"):
+            res.tag("layer-component-or-colour")
         for rep in range(2):
             before = fp(objs)
             with quiet(), np.errstate(all="ignore"):
@@ -343,7 +371,7 @@ def _sequence(osy, rng, res, i):
                 return
             if not o.ok:
                 res.tag("raising-call")
-                if name != "map-bad-layer":
+                if name not in ("map-bad-layer", "plot-unit-mismatch", "scatter-size-unit-mismatch"):
                     res.violate("plot-raised", f"call {step} {name} in {seq}: {o.describe()}", tb=o.tb)
                     close_figs()
                     return
